@@ -431,8 +431,6 @@ def range_checked(w, sel, edges, evs, ci_):
 
 def is_range_test(t, edges):
     s_ = ast.unparse(t).replace(' ', '')
-    if '0<=' in s_ and f'<len(self.{edges})' in s_:
-        return True
     return f'len(self.{edges})' in s_ and range_guard_ok(strip_type_test(t), edges, accept=True)
 
 
@@ -574,6 +572,40 @@ def check_generators(p, r):
         r.ok('C15.R7', key, 'ROUND_ROBIN / RANDOM mapped to their generators, unknown names rejected, edge_type lower-cased', src(UTILS), ges.node.lineno)
     else:
         r.fail('C15.R7', key, f'strategy table {table} / rejection of unknown names / edge_type normalisation changed', src(UTILS), ges.node.lineno)
+    # ---- every call builds its own selector: the value returned is the generator created by THIS call from (node, env, edge_type)
+    key = f'{ges.key}::fresh-selector-per-call'
+    params = [a.arg for a in ges.node.args.args]
+    single = {}
+    nass = {}
+    for n in walk_no_nested(ges.node):
+        if isinstance(n, (ast.Assign, ast.AugAssign, ast.AnnAssign)):
+            for t in (n.targets if isinstance(n, ast.Assign) else [n.target]):
+                if isinstance(t, ast.Name):
+                    nass[t.id] = nass.get(t.id, 0) + 1
+                    single[t.id] = n.value if isinstance(n, ast.Assign) else None
+    top_level = {id(st) for st in ges.node.body}
+
+    def fresh(e, depth=0):
+        if isinstance(e, ast.Name) and nass.get(e.id) == 1 and single.get(e.id) is not None and depth < 4:
+            return fresh(single[e.id], depth + 1)          # bound exactly once in the function
+        if not isinstance(e, ast.Call) or e.keywords or len(e.args) != 3:
+            return False
+        f = e.func
+        picks = isinstance(f, ast.Subscript) and isinstance(f.slice, ast.Name) and f.slice.id == params[0] \
+            or (isinstance(f, ast.Call) and isinstance(f.func, ast.Attribute) and f.func.attr == 'get' and f.args and isinstance(f.args[0], ast.Name) and f.args[0].id == params[0]) \
+            or (isinstance(f, ast.Name) and nass.get(f.id) == 1 and isinstance(single.get(f.id), (ast.Subscript, ast.Call)))
+        args_ok = [isinstance(a, ast.Name) and a.id for a in e.args] == params[1:4]
+        return bool(picks and args_ok)
+    rets = [n for n in walk_no_nested(ges.node) if isinstance(n, ast.Return)]
+    stale = [n for n in rets if n.value is None or not fresh(n.value)]
+    if rets and not stale:
+        r.ok('C15.R7', key, 'returns strategies[sel_type](node, env, edge_type), built by this very call', src(UTILS), ges.node.lineno)
+    else:
+        n = stale[0] if stale else ges.node
+        r.fail('C15.R7', key, f'get_edge_selector returns `{ast.unparse(n.value) if getattr(n, "value", None) is not None else "nothing"}`, which is not the generator '
+                              f'built by this call from (node, env, edge_type): a selector that is cached / shared serves two sides or two nodes with one rotation '
+                              f'(IN and OUT of a node with the same policy name advance the same generator, bound to the edge list of whichever asked first)',
+               src(UTILS), n.lineno)
 
 
 def names_edge_list(expr, param='edge_type') -> bool:
